@@ -28,7 +28,7 @@ Definition op_ok (m : mstate) (o : op) : bool :=
   match o with
   | OpPublish ch data po nonce =>
       (negb (String.eqb ch "") && popts_ok po && nonce_ok nonce
-       && (N.of_nat (String.length data) <? 2147483648)%N
+       && (N.of_nat (String.length data) <? 2147483647)%N
        && (top_of m ch + 1 <? BOUND)%N)%bool
   | OpHistory ch f mttl nonce =>
       (nonce_ok nonce && small mttl && (hf_limit f <? 2147483648)%Z
@@ -197,6 +197,7 @@ Definition chan_rel (rs : rstate) (ch : string) (os : option mstream) : Prop :=
 
 Definition stream_inv (s : mstream) : Prop :=
   nonce_ok (ms_epoch s) = true /\ (ms_top s < BOUND)%N /\ (ms_ver s < 9007199254740992)%N /\
+  (forall it, In it (ms_items s) -> (N.of_nat (String.length (snd it)) < 2147483647)%N) /\
   exists lo, (1 <= lo)%N /\ contig (ms_items s) lo (ms_top s).
 
 Definition cache_rel (rs : rstate) (ms : mstate) (ch k : string) : Prop :=
@@ -313,8 +314,8 @@ Proof. intros ->. split; cbn; [reflexivity|lia]. Qed.
 
 Lemma stream_inv_clear s : stream_inv s -> stream_inv (stream_clear s).
 Proof.
-  intros (H1 & H2 & H3 & lo & H4 & H5). unfold stream_inv, stream_clear. cbn.
-  repeat split; try assumption. exists (ms_top s + 1)%N. split; [lia|]. apply contig_nil. reflexivity.
+  intros (H1 & H2 & H3 & Hd & lo & H4 & H5). unfold stream_inv, stream_clear. cbn.
+  repeat split; try assumption; [intros it []|]. exists (ms_top s + 1)%N. split; [lia|]. apply contig_nil. reflexivity.
 Qed.
 
 Definition step_goal U P cfg rs ms o : Prop :=
